@@ -1582,14 +1582,14 @@ package formula
 //@   requires v != nil
 //@   panics never
 //@   ensures result1 == nil && result0 != nil && fresh(result0)
-//@   ensures[C18] result0.val == dceil(v.val, 16)
+//@   ensures[C18] dfits(v.val, 34) ==> result0.val == dceilx(v.val)
 
 //@ func funFloor
 //@   tags [C18,C03]
 //@   requires v != nil
 //@   panics never
 //@   ensures result1 == nil && result0 != nil && fresh(result0)
-//@   ensures[C18] result0.val == dfloor(v.val, 16)
+//@   ensures[C18] result0.val == dfloorx(v.val)
 
 //@ func funExp
 //@   tags [C18,C03]
